@@ -269,6 +269,143 @@ type vScenario struct {
 	partial   map[string]bool
 	crashes   []*vCrash
 	lost      []int // captures that were only queued when the process was killed (known to the new builder, never imported)
+	// the event stream as a listener sees it (Manager.Listen)
+	evCh   chan Event
+	evPing chan chan struct{}
+	evStop chan struct{}
+	evMu   sync.Mutex
+	evs    []vEvent
+}
+
+// one announced event, reduced to what the specification predicts (spec/Manager.tla, "event stream")
+type vEvent struct {
+	T string   `json:"t"`
+	N string   `json:"n"`
+	A int      `json:"a"`
+	B int      `json:"b"`
+	C int      `json:"c"`
+	L []string `json:"l"`
+}
+
+func vEventOf(e Event) (vEvent, bool) {
+	v := vEvent{T: e.Type, L: []string{}}
+	switch e.Type {
+	case "pcapArrived", "configUpdated":
+	case "pcapProcessed", "indexesMerged":
+		if e.PcapStats == nil {
+			v.N = "(no statistics)"
+		} else {
+			v.A, v.B, v.C = e.PcapStats.ImportJobCount, e.PcapStats.StreamCount, e.PcapStats.IndexCount
+		}
+	case "tagAdded":
+		if e.Tag == nil {
+			v.N = "(no tag)"
+		} else {
+			v.N, v.A, v.B = e.Tag.Name, int(e.Tag.MatchingCount), int(e.Tag.UncertainCount)
+		}
+	case "tagDeleted":
+		if e.Tag == nil {
+			v.N = "(no tag)"
+		} else {
+			v.N = e.Tag.Name
+		}
+	case "converterCompleted":
+		if e.Converter == nil {
+			v.N = "(no converter)"
+		} else {
+			v.N, v.A = e.Converter.Name, int(e.Converter.CachedStreamCount)
+		}
+	case "webhooksUpdated":
+		if e.Webhooks == nil {
+			v.N = "(no list)"
+		} else {
+			v.L = append(v.L, (*e.Webhooks)...)
+		}
+	case "pcapOverIPEndpointsUpdated":
+		if e.PcapOverIPEndpoints == nil {
+			v.N = "(no list)"
+		} else {
+			v.A = len(*e.PcapOverIPEndpoints)
+		}
+	default:
+		// tagUpdated comes from a ticker, the converter directory events from a file system watcher: not tied to a step
+		return v, false
+	}
+	return v, true
+}
+
+// a listener that is always ready to receive
+func (s *vScenario) listen() {
+	ch, _ := s.mgr.Listen()
+	s.evCh, s.evPing, s.evStop = ch, make(chan chan struct{}), make(chan struct{})
+	s.evMu.Lock()
+	s.evs = nil
+	s.evMu.Unlock()
+	go func(ch chan Event, ping chan chan struct{}, stop chan struct{}) {
+		for {
+			select {
+			case e, ok := <-ch:
+				if !ok {
+					return
+				}
+				if v, keep := vEventOf(e); keep {
+					s.evMu.Lock()
+					s.evs = append(s.evs, v)
+					s.evMu.Unlock()
+				}
+			case p := <-ping:
+				close(p)
+			case <-stop:
+				return
+			}
+		}
+	}(ch, s.evPing, s.evStop)
+}
+
+// the events announced since the last call, once none is on its way any more (sorted: the order in which the events of
+// one closure reach a listener is not defined)
+func (s *vScenario) takeEvents() ([]vEvent, error) {
+	if s.evCh == nil {
+		return []vEvent{}, nil
+	}
+	deadline := time.Now().Add(5 * time.Second)
+	for {
+		active := make(chan int, 1)
+		select {
+		case s.mgr.jobs <- func() { active <- s.mgr.listeners[s.evCh].active }:
+		case <-time.After(5 * time.Second):
+			return nil, fmt.Errorf("manager goroutine does not accept closures")
+		}
+		select {
+		case n := <-active:
+			if n == 0 {
+				p := make(chan struct{})
+				select {
+				case s.evPing <- p:
+					<-p
+				case <-time.After(5 * time.Second):
+					return nil, fmt.Errorf("the listener does not answer")
+				}
+				s.evMu.Lock()
+				evs := append([]vEvent{}, s.evs...)
+				s.evs = nil
+				s.evMu.Unlock()
+				sort.SliceStable(evs, func(i, j int) bool {
+					if evs[i].T != evs[j].T {
+						return evs[i].T < evs[j].T
+					}
+					return evs[i].N < evs[j].N
+				})
+				return evs, nil
+			}
+		case <-time.After(5 * time.Second):
+			return nil, fmt.Errorf("manager goroutine hangs")
+		}
+		if time.Now().After(deadline) {
+			return nil, fmt.Errorf("events stay undelivered")
+		}
+		time.Sleep(200 * time.Microsecond)
+	}
 }
 
 func (s *vScenario) fid(name string) string {
